@@ -137,6 +137,10 @@ func c09(args []string) error {
 				}
 			}
 			unknown := hotstuff.NewBlock(b.Hash(), hotstuff.NewQuorumCert(nil, view, b.Hash()), &clientpb.Batch{}, view+1, 5)
+			// a second block that is newer than R's high QC, stored at R and voted for by a few replicas (never a quorum) while
+			// the votes for b arrive: votes are counted per block, whatever else the signer has voted for
+			ahead := hotstuff.NewBlock(b.Hash(), hotstuff.NewQuorumCert(nil, view, b.Hash()), &clientpb.Batch{}, hotstuff.View(2**rounds+1+2*round), 1)
+			r.BC.Store(ahead)
 			o.emit(obj{"op": "round", "view": int(view)})
 			// the events of this round: the proposal, one valid vote per other replica, hostile votes
 			type ev struct {
@@ -172,6 +176,15 @@ func c09(args []string) error {
 					continue
 				}
 				evs = append(evs, ev{[]string{"dup", "wrongblock", "relabelled", "twosigners", "stale", "unknown", "outsider"}[rng.Intn(7)], from})
+			}
+			if rng.Intn(2) == 0 {
+				// one of the voters of this round also votes for the block ahead (before or after its vote for b)
+				for _, e := range evs {
+					if e.kind == "valid" {
+						evs = append(evs, ev{"ahead", e.from})
+						break
+					}
+				}
 			}
 			if rng.Intn(3) == 0 {
 				// the collector leaves the view on a timeout certificate while votes are still arriving (its high QC does not change)
@@ -271,6 +284,12 @@ func c09(args []string) error {
 						continue
 					}
 					deliverVote(e.kind, e.from, hotstuff.VoteMsg{ID: p.ID, PartialCert: pc}, obj{"signers": []int{e.from}, "valid": true, "block": "old"})
+				case "ahead":
+					pc, err := p.Auth.CreatePartialCert(ahead)
+					if err != nil {
+						return err
+					}
+					deliverVote(e.kind, e.from, hotstuff.VoteMsg{ID: p.ID, PartialCert: pc}, obj{"signers": []int{e.from}, "valid": true, "block": "ahead"})
 				case "unknown":
 					sig, _ := p.Auth.Sign(unknown.ToBytes())
 					deliverVote(e.kind, e.from, hotstuff.VoteMsg{ID: p.ID, PartialCert: hotstuff.NewPartialCert(sig, unknown.Hash())}, obj{"signers": []int{e.from}, "valid": true, "block": "unknown"})
